@@ -54,4 +54,16 @@ C15Fails(c) ==
            C15TableFails("evaluate_circuit(dict-shared-by-entry-points)", c.res.circ_x, labels, Reach(ck, SeqSet(ck.o)), tt, n) \cup
            C15TableFails("evaluate_circuit_outputs(dict-shared-by-entry-points)", c.res.outs_x, SeqSet(ck.o), SeqSet(ck.o), tt, n)
       ELSE {})
+(* kind "partialdeep": the same clauses on a circuit with one path of more than a thousand gates; c.order witness order
+   (checked on the way), c.sample the gates whose recorded values are judged.  Linear. *)
+C15DeepFails(c) ==
+  LET ck == c.c
+      n == Len(ck.i)
+      G == AsFcn(ck.g)
+      ev == EvalChecked(G, c.order, InputCols(ck), AllRows(n))
+      labels == SeqSet(c.sample)
+  IN IF ~(ev.ok /\ labels \cup SeqSet(ck.o) \subseteq DOMAIN ev.v) THEN {}
+     ELSE C15TableFails("evaluate_full_circuit", c.res.full, labels, labels, ev.v, n) \cup
+          C15TableFails("evaluate_circuit", c.res.circ, labels, labels \cap ReachAlong(G, c.order, SeqSet(ck.o)), ev.v, n) \cup
+          C15TableFails("evaluate_circuit_outputs", c.res.outs, SeqSet(ck.o), SeqSet(ck.o), ev.v, n)
 =============================================================================
